@@ -141,8 +141,8 @@ let () =
           if not (settled g) then Printf.printf "BADCHK %d %s not-settled\n" !lineno !case
           else begin
             (* largest finite distance below INF *)
-            let md = List.fold_left (fun acc (i, _) -> List.fold_left (fun acc (d, _) ->
-                         match distb g i d with Some m -> max acc (int_of_nat m) | None -> acc) acc g) 0 g in
+            (* largest finite distance below INF (Spec.maxdist, the bound in the theorems) *)
+            let md = int_of_nat (maxdist g) in
             let need = if kind = "chk" then int_of_n iNF + md else md in
             if kind = "chkclean" && not !clean then Printf.printf "BADCHK %d %s not-clean\n" !lineno !case
             else if !rounds < need && all_pairs g <> [] then Printf.printf "BADCHK %d %s rounds=%d need=%d\n" !lineno !case !rounds need
